@@ -156,7 +156,7 @@ def body_deletions(text, rules):
     for mt in re.finditer(r'(?<![\w:])::(indexmap|serde)::', m):
         dels.append((mt.start(), mt.end(), mt.group(1) + '::'))
         rules.append(('D4', f'::{mt.group(1)}:: -> {mt.group(1)}::', ''))
-    for mt in re.finditer(r'(?<![\w:])::std::(fs|io)::', m):
+    for mt in re.finditer(r'(?<![\w:])::std::(fs|io|str)::', m):
         dels.append((mt.start(), mt.end(), mt.group(1) + '::'))
         rules.append(('D4', f'::std::{mt.group(1)}:: -> {mt.group(1)}::', ''))
     dels.sort(key=lambda d: (d[0], d[1]))
@@ -326,7 +326,7 @@ class Extractor:
         for mt in re.finditer(r'#\[', mm):
             close = match_close(mm, mt.start() + 1)
             attr = body[mt.start():close + 1]
-            if attr.startswith('#[serde(') or DROP_ATTR_RE.fullmatch(attr) or attr.startswith('#[cfg_attr('):
+            if attr.startswith('#[serde(') or DROP_ATTR_RE.fullmatch(attr) or attr.startswith('#[cfg_attr(') or attr == '#[default]':   # `#[default]` only matters to derive(Default), which E3 drops
                 dels.append(_swallow_line(body, mt.start(), close + 1))
                 rules.append(('D3r', attr, 'field attribute'))
             elif CFG_FEATURE_RE.fullmatch(attr):
@@ -628,7 +628,7 @@ class Extractor:
         if opts.get('wrap'):
             mb = mask(body)
             for nm in opts['wrap'].split(','):
-                for mt in re.finditer(r'\.\s*' + re.escape(nm) + r'\s*\(', mb):
+                for mt in re.finditer(r'\.\s*' + re.escape(nm) + r'\s*(?:::\s*<|\()', mb):
                     st = mt.start() + mb[mt.start():mt.end()].index(nm)
                     dels.append((st, st + len(nm), nm + '_'))
                     rules.append(('M1', f'std method .{nm}() called through the prelude wrapper .{nm}_() (assumed specification)', ''))
